@@ -143,7 +143,7 @@ func (s *Signature) String() string {
 // Verify will ensure that the provided key was used to sign the
 // signature and will provide the raw data that was signed.
 func (s *Signature) Verify(key *PublicKey) ([]byte, error) {
-	if s == nil || s.jws == nil || key == nil {
+	if s == nil || s.jws == nil || key == nil || key.jwk == nil {
 		return nil, ErrKeyMismatch
 	}
 	data, err := s.jws.Verify(key.jwk)
